@@ -7,6 +7,7 @@ package main
 // could have written through its arguments is forgotten.
 
 import (
+	"bytes"
 	"fmt"
 	"go/types"
 	"math"
@@ -14,6 +15,7 @@ import (
 	"regexp"
 	"strconv"
 	"strings"
+	"unicode"
 
 	"golang.org/x/tools/go/ssa"
 )
@@ -148,6 +150,9 @@ func (fr *frame) call(c *ssa.Call) Val {
 		return v
 	}
 	if v, ok := fr.sortCall(c, callee, args); ok {
+		return v
+	}
+	if v, ok := fr.bytesWindowCall(callee, args); ok {
 		return v
 	}
 	if v, ok := fr.predicateCall(c, callee, args); ok {
@@ -1004,4 +1009,87 @@ func (fr *frame) sortCall(c *ssa.Call, fn *ssa.Function, args []Val) (Val, bool)
 		}
 	}
 	return Val{K: KTuple}, true
+}
+
+// bytesWindowCall models the functions of package bytes that return a window
+// of their argument, for a slice of known length whose elements are known:
+// Trim, TrimLeft, TrimRight, TrimSpace, TrimPrefix, TrimSuffix.
+func (fr *frame) bytesWindowCall(fn *ssa.Function, args []Val) (Val, bool) {
+	if fn.Pkg == nil || fn.Pkg.Pkg.Path() != "bytes" || len(args) < 1 || args[0].K != KSlice || args[0].Len < 0 || args[0].Len > 4096 {
+		return Val{}, false
+	}
+	switch fn.Name() {
+	case "Trim", "TrimLeft", "TrimRight", "TrimSpace", "TrimPrefix", "TrimSuffix":
+	default:
+		return Val{}, false
+	}
+	s := args[0]
+	bs := make([]byte, s.Len)
+	dep := s.Dep
+	for i := range bs {
+		e := fr.load(fmt.Sprintf("%s[%d]", s.S, s.Off+i), types.Typ[types.Uint8])
+		if e.K != KInt || !e.I.IsInt64() {
+			return Val{}, false
+		}
+		dep = dep || e.Dep
+		bs[i] = byte(e.I.Int64())
+	}
+	arg := ""
+	if fn.Name() != "TrimSpace" {
+		if len(args) != 2 {
+			return Val{}, false
+		}
+		switch args[1].K {
+		case KStr:
+			arg = args[1].S
+		case KSlice:
+			el, ok := fr.sliceElems(args[1], types.Typ[types.Uint8])
+			if !ok {
+				return Val{}, false
+			}
+			b2 := make([]byte, len(el))
+			for i, e := range el {
+				if e.K != KInt || !e.I.IsInt64() {
+					return Val{}, false
+				}
+				b2[i] = byte(e.I.Int64())
+			}
+			arg = string(b2)
+		default:
+			return Val{}, false
+		}
+	}
+	var res []byte
+	switch fn.Name() {
+	case "Trim":
+		res = bytes.Trim(bs, arg)
+	case "TrimLeft":
+		res = bytes.TrimLeft(bs, arg)
+	case "TrimRight":
+		res = bytes.TrimRight(bs, arg)
+	case "TrimSpace":
+		res = bytes.TrimSpace(bs)
+	case "TrimPrefix":
+		res = bytes.TrimPrefix(bs, []byte(arg))
+	case "TrimSuffix":
+		res = bytes.TrimSuffix(bs, []byte(arg))
+	}
+	// the result is a window of the argument: find its start
+	lead := 0
+	if len(res) > 0 {
+		lead = len(bs) - len(bytes.TrimLeft(bs, arg))
+		switch fn.Name() {
+		case "TrimRight", "TrimSuffix":
+			lead = 0
+		case "TrimSpace":
+			lead = len(bs) - len(bytes.TrimLeftFunc(bs, unicode.IsSpace))
+		case "TrimPrefix":
+			lead = len(bs) - len(res)
+		}
+	}
+	if len(res) == 0 && (fn.Name() == "Trim" || fn.Name() == "TrimLeft" || fn.Name() == "TrimRight" || fn.Name() == "TrimSpace") {
+		// an all-trimmed slice comes back as nil
+		return Val{K: KNil, Dep: dep}, true
+	}
+	return Val{K: KSlice, S: s.S, Off: s.Off + lead, Len: len(res), Dep: dep}, true
 }
